@@ -94,10 +94,30 @@ def gen(tier, idx):
     return dict(kind=kind, codec=codec, opts=opts, cached=cached, bytecode=bytecode), ops
 
 
-def run_child(job, tmp, tag, cwd, bytecode):
+def make_decoys(cfg, loc, tmp, ops):
+    """source-text archives are read through the import system: a directory that comes EARLIER on the module search path than anything
+    the archive adds holds modules with the archive's own names (`arch.py`; `K_<key>/__init__.py`) and foreign contents - the user's
+    script directory may well contain a `memo.py` of its own.  The archive must read its own files."""
+    d = os.path.join(tmp, 'decoy'); os.makedirs(d)
+    if cfg['kind'] == 'file':
+        open(os.path.join(d, os.path.splitext(os.path.basename(loc))[0] + '.py'), 'w').write("memo = {'__decoy__': 'foreign'}\n")
+    else:
+        keys = set()
+        for o in ops:
+            if o[0] in ('setitem', 'delitem', 'pop', 'setdefault'): keys.add(o[1])
+            elif o[0] == 'update': keys.update(k for k, _ in o[1])
+            elif o[0] in ('popkeys', 'dumpk'): keys.update(o[1])
+        for k in keys:
+            if isinstance(k, str) and k.isidentifier():
+                pk = os.path.join(d, 'K_' + k); os.makedirs(pk, exist_ok=True)
+                open(os.path.join(pk, '__init__.py'), 'w').write("memo = '__decoy__'\n")
+    return d
+
+
+def run_child(job, tmp, tag, cwd, bytecode, decoy=None):
     p = os.path.join(tmp, 'job_%s.json' % tag)
     json.dump(job, open(p, 'w'))
-    env = dict(os.environ, PYTHONPATH=REPO + os.pathsep + HERE)
+    env = dict(os.environ, PYTHONPATH=(decoy + os.pathsep if decoy else '') + REPO + os.pathsep + HERE)
     if bytecode: env.pop('PYTHONDONTWRITEBYTECODE', None)
     else: env['PYTHONDONTWRITEBYTECODE'] = '1'
     r = subprocess.run([sys.executable, os.path.join(HERE, 'persist_child.py'), p], stdout=subprocess.PIPE, stderr=subprocess.STDOUT,
@@ -128,9 +148,10 @@ def run_trace(cfg, ops):
         job = dict(role='writer', cfg=cfg, loc=loc, handle=os.path.join(tmp, 'handle.pkl'), every=len(ops) <= 8, mutate=not cfg['cached'],
                    ops=pickle.dumps([[o[0]] + [(vdesc(x) if (o[0] in ('setitem', 'setdefault') and j == 1) else
                                                ([[p[0], vdesc(p[1])] for p in x] if o[0] == 'update' else x)) for j, x in enumerate(o[1:])] for o in ops]).hex())
-        w = run_child(job, tmp, 'w', os.path.join(tmp, 'wcwd'), cfg['bytecode'])
+        decoy = make_decoys(cfg, loc, tmp, ops) if cfg['codec'] == 'source' and cfg['kind'] in ('file', 'dir') else None
+        w = run_child(job, tmp, 'w', os.path.join(tmp, 'wcwd'), cfg['bytecode'], decoy)
         if 'error' in w: return dict(cfg=cfg, ops=ops, err=w['error'])
-        rd = run_child(dict(job, role='reader'), tmp, 'r', os.path.join(tmp, 'rcwd'), cfg['bytecode'])
+        rd = run_child(dict(job, role='reader'), tmp, 'r', os.path.join(tmp, 'rcwd'), cfg['bytecode'], decoy)
         if 'error' in rd: return dict(cfg=cfg, ops=ops, err=rd['error'])
         # ---- lines for the Lean model (protocol of suite `backend`) and the snapshot reference
         vals = CVals()
